@@ -148,10 +148,16 @@ Proof.
   cbn. rewrite Ex. cbn. eapply IH. reflexivity.
 Qed.
 
-Corollary c10_holdsb_not_1 P ls s :
-  run (step P) init ls = Some s -> C10_holdsb P (obs_trace obs ls) <> 1%N.
+Lemma c10_holdsb_base P tr v : v <> 0%N -> v <> 7%N -> C10_holdsb P tr = v -> C10_base P tr = v.
 Proof.
-  intros Hr. unfold C10_holdsb.
+  unfold C10_holdsb. intros H0 H7. destruct (C10_base P tr) eqn:E; [|auto].
+  destruct (failed_state_ok tr); intros <-; congruence.
+Qed.
+
+Lemma c10_base_not_1 P ls s :
+  run (step P) init ls = Some s -> C10_base P (obs_trace obs ls) <> 1%N.
+Proof.
+  intros Hr. unfold C10_base.
   destruct (split_first is_fail_exit (obs_trace obs ls)) as [pre hit] eqn:Es.
   destruct hit as [[e post]|].
   - destruct (existsb (is_state FRunning) pre && negb (existsb is_stop_or_cancel pre) && negb (existsb is_run_ret pre));
@@ -162,4 +168,10 @@ Proof.
   - pose proof (split_first_none _ _ _ Es) as Hno.
     destruct (run_result (obs_trace obs ls)) as [r|] eqn:Er; [|discriminate].
     rewrite (c10_clause1_link P ls s Hr Hno r Er). discriminate.
+Qed.
+
+Corollary c10_holdsb_not_1 P ls s :
+  run (step P) init ls = Some s -> C10_holdsb P (obs_trace obs ls) <> 1%N.
+Proof.
+  intros Hr H. apply (c10_base_not_1 P ls s Hr). apply c10_holdsb_base; [discriminate|discriminate|exact H].
 Qed.
